@@ -179,6 +179,19 @@ def fam_lists_2level(inner_maxlen, outer_maxlen, symbols=(1, 2)):
                 yield {'kind': 'json', 'a': a, 'b': b, 'opt': ['auto', lm]}
 
 
+def fam_long_lists(maxlen):
+    """Wide but narrow: one symbol repeated up to maxlen times against a short list (sizes and costs that cross the
+    8-bit boundaries of any narrow accumulator)."""
+    for sym in (None, '', 1):
+        shorts = ([], [sym], [sym, 1], [2])
+        for n in list(range(0, 12)) + list(range(250, maxlen + 1)):
+            for b in shorts:
+                yield {'kind': 'json', 'a': [sym] * n, 'b': list(b), 'opt': ['auto', 'on']}
+                if n % 7 == 0 or 254 <= n <= 258:
+                    yield {'kind': 'json', 'a': list(b), 'b': [sym] * n, 'opt': ['auto', 'on']}
+                    yield {'kind': 'json', 'a': [sym] * n, 'b': list(b), 'opt': ['auto', 'off']}
+
+
 def fam_dicts(keys, values):
     docs = []
     for combo in itertools.product((None,) + tuple(range(len(values))), repeat=len(keys)):
@@ -299,6 +312,7 @@ def families(tier, docs_budget=None):
         ('lists_nested', fam_lists(3 if q else 4, ([1], [2]))),
         ('lists_mixed', fam_lists(3 if q else 4, (1, [1], None))),
         ('lists_2level', fam_lists_2level(2, 2) if q else fam_lists_2level(2, 2, (1, 2, None))),
+        ('long_lists', fam_long_lists(262 if q else 300)),
         ('dicts', fam_dicts(('a', 'ab', 'c'), (1, 2))),
         ('dicts_nested', fam_dicts(('a', 'ab'), ([1], [1, 2], {'a': 1}))),
         ('dicts_mixed_keys', fam_mixed_keys()),
